@@ -43,6 +43,8 @@ def specs_for(ctx):
                       "sim": {"theta": rng.uniform(0, 2 * math.pi), "scale": 10 ** rng.uniform(-1, 1), "offset_sizes": rng.uniform(0, 2),
                               "extent": ext, "reflect": rng.random() < 0.3},
                       "build": {"limit": lim, "fit": rng.choice(["dlite", "taubinSVD"]), "no_metadata": rng.random() < 0.6,
+                                # one build in six is the one get_system_velocity_per_frame(angle_limit=limit) makes (default fit only)
+                                "via_sysvel": rng.random() < 0.17,
                                 # an earlier build with ANOTHER limit on the same session (half of the default-limit cases, a
                                 # quarter of the others): nothing of it may survive into the judged build
                                 "prebuild": ({"limit": rng.choice(["pi", 2.0, 2.0, 2.6, 2.6, "inf"]), "fit": "dlite", "ignore_four": None}
